@@ -206,7 +206,53 @@ def raised_only_when_no_member_has_it(name, p0, p1, p2, pre0, pre1, pre2):
     return not (holds(p0, full(pre0, name)) or holds(p1, full(pre1, name)) or holds(p2, full(pre2, name)))
 
 
-PROOFS = [zip_exists, zip_get, vpk_exists, vpk_get, chain_get]
+chain_add = REG.add(Contract(f'{M}:FileSystemChain.add_sys', PROP))
+
+
+def _add_setup(readd):
+    def setup(h):
+        members = [Obj(f'Member{k}', {}, module='') for k in range(3)]
+        prefixes = [h.str(f'prefix{k}') for k in range(3)]
+        old = [(members[0], prefixes[0]), (members[1], prefixes[1])]
+        chain = Obj('FileSystemChain', dict(systems=PList(list(old)), path=''), module=M)
+        new = (members[1], prefixes[1]) if readd else (members[2], prefixes[2])
+        prio = h.bool('priority')
+        return {'args': [chain, new[0], new[1]], 'kwargs': {'priority': prio},
+                'ghost': dict(CHAIN=chain, OLD0=old[0], OLD1=old[1], NEW=new, PRIO=prio)}
+    return setup
+
+
+chain_add.setup(_add_setup(False), label='new_member')
+chain_add.setup(_add_setup(True), label='member_already_present')
+
+
+def _pair(e):
+    e = e.items if isinstance(e, PList) else e
+    return e[0], to_z3(e[1])
+
+
+def _search_order(entries):
+    """Members in the order a lookup visits them; a later repeat of an earlier (member, prefix) pair never matters."""
+    out = []
+    for m, p in entries:
+        if not any(m is m2 and p.eq(p2) for m2, p2 in out):
+            out.append((m, p))
+    return out
+
+
+@native
+def search_order_is(I, chain, *want):
+    got = _search_order([_pair(e) for e in chain.fields['systems'].items])
+    exp = _search_order([_pair(e) for e in want])
+    return len(got) == len(exp) and all(a is c and b.eq(d) for (a, b), (c, d) in zip(got, exp))
+
+
+@chain_add.ensures
+def priority_members_are_searched_first_others_last_and_nothing_is_dropped(CHAIN, OLD0, OLD1, NEW, PRIO):
+    return search_order_is(CHAIN, NEW, OLD0, OLD1) if PRIO else search_order_is(CHAIN, OLD0, OLD1, NEW)
+
+
+PROOFS = [zip_exists, zip_get, vpk_exists, vpk_get, chain_get, chain_add]
 
 
 # ------------------------------------------------------------------------------------------------ bounded differential
@@ -220,10 +266,12 @@ def _build(files, tmp):
         for n, d in files.items():
             z.writestr(n, d)
     vpath = os.path.join(tmp, 'f_dir.vpk')
-    v = VPK(vpath, mode='w')
-    for n, d in files.items():
-        v.add_file(n, d)
-    v.write_dirfile()
+    ascii_only = all(n.isascii() for n in files)       # VPK refuses non-ASCII names: such sets have three backends
+    if ascii_only:
+        v = VPK(vpath, mode='w')
+        for n, d in files.items():
+            v.add_file(n, d)
+        v.write_dirfile()
     root = os.path.join(tmp, 'raw')
     os.makedirs(root)
     folded_seen = set()
@@ -237,8 +285,10 @@ def _build(files, tmp):
         with open(p, 'wb') as f:
             f.write(d)
         raw_files[n] = d
-    return {'virtual': virtual_wrap(virt), 'zip': ZipFileSystem(zpath), 'vpk': VPKFileSystem(vpath)}, \
-        RawFileSystem(root), raw_files
+    backends = {'virtual': virtual_wrap(virt), 'zip': ZipFileSystem(zpath)}
+    if ascii_only:
+        backends['vpk'] = VPKFileSystem(vpath)
+    return backends, RawFileSystem(root), raw_files
 
 
 def virtual_wrap(v):
@@ -349,11 +399,11 @@ def _job_diff(names):
 
 
 NAMES = ['a.txt', 'A.TXT', 'mat/b.txt', 'materials/c.txt', 'materials/sub/d.txt', 'Materials/E.txt', 'mat.txt',
-         'materials.txt', 'models/m.mdl', 'mat/sub/f.txt']
+         'materials.txt', 'models/m.mdl', 'mat/sub/f.txt', 'maps/Stra\xdfe.txt', '\ufb01les/\u017f.txt']
 
 
-@bounded('C19.B-differential', bound='all file sets of 1..3 names (thorough: ..4) from 10 names (mixed case, nested '
-         'folders, names and folders that are prefixes of others, case-only duplicates), loaded into the in-memory, zip, '
+@bounded('C19.B-differential', bound='all file sets of 1..3 names (thorough: ..4) from 12 names (mixed case, nested '
+         'folders, names and folders that are prefixes of others, case-only duplicates, two names whose casefold() is not their lower(): sets with those skip VPK, which refuses non-ASCII names), loaded into the in-memory, zip, '
          'VPK and directory backends; every spelling (case, slash kind) of every name; every folder prefix in several '
          'spellings incl. trailing slash and truncated names', rule='one case per file set; non-trivial when it has a '
          'nested folder or a prefix-related pair')
@@ -378,9 +428,14 @@ def _chain_case(spec):
     for k, (names, prefix) in enumerate(spec):
         members.append((VirtualFileSystem({n: f'{k}:{n}'.encode() for n in names}), prefix))
     chain = FileSystemChain(*[(m, p) if p else m for m, p in members])
+    return _check_chain(chain, [(k, names, prefix) for k, (names, prefix) in enumerate(spec)], spec)
+
+
+def _check_chain(chain, ordered, spec):
+    """ordered: (member number, names, prefix) in the order a lookup must visit them."""
     # expected view: chain-relative name -> bytes of the first member that has it
     expected = {}
-    for k, (names, prefix) in enumerate(spec):
+    for k, names, prefix in ordered:
         folder = prefix.replace('\\', '/').rstrip('/')       # 'hl2', 'hl2/' and 'HL2' name the same subfolder
         for n in names:
             if folder and not n.casefold().startswith(folder.casefold() + '/'):
@@ -401,6 +456,30 @@ def _chain_case(spec):
     return None
 
 
+def _chain_history_case(spec):
+    """spec: (pool of (names, prefix), ops of (pool index, priority)): the chain is built by add_sys calls, members may be
+    added again (with priority: they must then be searched first)."""
+    from srctools.filesys import VirtualFileSystem, FileSystemChain
+    pool, ops = spec
+    members = [VirtualFileSystem({n: f'{k}:{n}'.encode() for n in names}) for k, (names, prefix) in enumerate(pool)]
+    chain = FileSystemChain()
+    order = []
+    for idx, priority in ops:
+        chain.add_sys(members[idx], pool[idx][1], priority=priority)
+        if priority:
+            order.insert(0, idx)
+        else:
+            order.append(idx)
+    return _check_chain(chain, [(k, pool[k][0], pool[k][1]) for k in order], spec)
+
+
+def _job_chain_history(spec):
+    try:
+        return _chain_history_case(spec)
+    except Exception as e:
+        return f'{type(e).__name__}: {e}'
+
+
 def _job_chain(spec):
     try:
         return _chain_case(spec)
@@ -410,7 +489,8 @@ def _job_chain(spec):
 
 @bounded('C19.B-chains', bound='chains of 1..3 (thorough: ..4) in-memory members, each holding a subset of {x.txt, '
          'cfg/x.txt, hl2/cfg/x.txt, ep2/cfg/x.txt, sub/x.txt, CFG/X.TXT} with prefix "" / hl2 / hl2/ / hl2/cfg / ep2 / sub; all '
-         'orders',
+         'orders; chains built by add_sys histories over 2-3 of 4 members (every member added at least once, up to 1 (thorough '
+         '2) re-additions, every priority flag combination; quick: an even sample of 4000)',
          rule='one case per chain; non-trivial when two members expose the same chain-relative name')
 def b_chains(ctx):
     pool = [(('cfg/x.txt',), ''), (('hl2/cfg/x.txt', 'hl2/y.txt'), 'hl2'), (('ep2/cfg/x.txt',), 'ep2'),
@@ -419,6 +499,7 @@ def b_chains(ctx):
             (('hl2/cfg/x.txt', 'hl2/y.txt'), 'hl2/'), (('hl2/cfg/x.txt', 'hl2/cfg/z.txt'), 'hl2/cfg')]
     maxn = 4 if ctx.thorough else 3
     jobs = [tuple(p) for n in range(1, maxn + 1) for p in itertools.permutations(pool, n)]
+    hjobs = []
     for job, bad in ctx.pmap(_job_chain, jobs, batch=1024):
         ctx.case(job, nontrivial=len(job) > 1)
         if bad:
@@ -426,8 +507,34 @@ def b_chains(ctx):
                           [[list(n), p] for n, p in job])
 
 
-b_chains.replay = lambda inp: (lambda r: {'failed': bool(r), 'observation': r})(
-    _job_chain(tuple((tuple(n), p) for n, p in inp)))
+    hpool = (pool[0], pool[5], pool[1], pool[6])        # cfg/x.txt | CFG/X.TXT | hl2:hl2/cfg/x.txt | hl2/cfg/x.txt
+    for npool in (2, 3):
+        for members in itertools.permutations(range(len(hpool)), npool):
+            sub = tuple(hpool[i] for i in members)
+            for nops in range(npool, npool + (3 if ctx.thorough else 2)):
+                for idxs in itertools.product(range(npool), repeat=nops):
+                    if set(idxs) != set(range(npool)):
+                        continue
+                    for prios in itertools.product((False, True), repeat=nops):
+                        hjobs.append((sub, tuple(zip(idxs, prios))))
+    if not ctx.thorough:
+        hjobs = hjobs[::max(1, len(hjobs) // 4000)]
+    for job, bad in ctx.pmap(_job_chain_history, hjobs, batch=1024):
+        ctx.case(('history', job), nontrivial=len(job[1]) > len(job[0]))
+        if bad:
+            ctx.violation('chain_history=' + ','.join(f'{i}{"!" if p else ""}' for i, p in job[1])[:150], bad,
+                          ['history', [[list(n), p] for n, p in job[0]], [list(o) for o in job[1]]])
+
+
+def _replay_chain(inp):
+    if inp and inp[0] == 'history':
+        r = _job_chain_history((tuple((tuple(n), p) for n, p in inp[1]), tuple((i, bool(p)) for i, p in inp[2])))
+    else:
+        r = _job_chain(tuple((tuple(n), p) for n, p in inp))
+    return {'failed': bool(r), 'observation': r}
+
+
+b_chains.replay = _replay_chain
 BOUNDED = [b_differential, b_chains]
 
 
@@ -444,6 +551,15 @@ for _c in PROOFS:
 
 
 MUTATIONS = [
+    dict(name='add_sys_skips_present_member', file='filesys.py',
+         old="        if priority:\n            self.systems.insert(0, (sys, prefix))",
+         new="        if (sys, prefix) in self.systems:\n            return\n        if priority:\n            self.systems.insert(0, (sys, prefix))",
+         expect='FileSystemChain.add_sys'),
+    dict(name='add_sys_priority_appends', file='filesys.py', old="            self.systems.insert(0, (sys, prefix))",
+         new="            self.systems.insert(1, (sys, prefix))", expect='FileSystemChain.add_sys'),
+    dict(name='virtual_clean_path_lower', file='filesys.py',
+         old="        return os.path.normpath(path).replace('\\\\', '/').casefold()",
+         new="        return os.path.normpath(path).replace('\\\\', '/').lower()", expect='backend=virtual'),
     dict(name='zip_get_skips_casefold', file='filesys.py',
          old="        name = name.replace('\\\\', '/')\n        try:\n            info = self._name_to_info[name.casefold()]\n        except KeyError:\n            raise FileNotFoundError(f'{self.path}:{name}') from None\n        return File(self, name, info)",
          new="        name = name.replace('\\\\', '/')\n        try:\n            info = self._name_to_info[name]\n        except KeyError:\n            raise FileNotFoundError(f'{self.path}:{name}') from None\n        return File(self, name, info)",
@@ -462,6 +578,9 @@ MUTATIONS = [
          expect='VPKFileSystem._file_exists'),
 ]
 HARMLESS = [
+    dict(name='add_sys_moves_a_present_member_instead_of_listing_it_twice', file='filesys.py',
+         old="        if priority:\n            self.systems.insert(0, (sys, prefix))",
+         new="        if priority:\n            if (sys, prefix) in self.systems:\n                self.systems.remove((sys, prefix))\n            self.systems.insert(0, (sys, prefix))"),
     dict(name='zip_exists_reordered', file='filesys.py',
          old="        return name.replace('\\\\', '/').casefold() in self._name_to_info",
          new="        key = name.replace('\\\\', '/')\n        return key.casefold() in self._name_to_info"),
